@@ -838,6 +838,35 @@ def r01_14(ctx, p):
                   how="value write dominated by the `values is not None` edge", witness=g.witness(writes, edges=acc))
 
 
+def r01_15(ctx, p):
+    ctx.rule("R01.15", "a rejected set_trial_state_values (returns False) has written nothing: no `return False` is reachable from a write of the trial")
+    sites = [(INMEM + ".set_trial_state_values",), (RDB + ".set_trial_state_values",), (REPLAY + "._apply_set_trial_state_values",)]
+    for (q,) in sites:
+        f = p.func(q)
+        g = CFG(f.node, name=f.qualname)
+        writes = []
+        for n in g.stmt_nodes():
+            if n.kind == "stmt" and isinstance(n.ast, (ast.Assign, ast.AugAssign)):
+                tg = n.ast.targets if isinstance(n.ast, ast.Assign) else [n.ast.target]
+                if any(isinstance(t, ast.Attribute) and t.attr in ("state", "values", "datetime_start", "datetime_complete") and not isinstance(t.value, ast.Name) is False
+                       and norm(t.value) != "self" for t in tg):
+                    writes.append(n)
+            for c in n.calls():
+                if self_attr(c.func) in ("_set_trial_value_without_commit", "_set_trial"):
+                    writes.append(n)
+        ctx.require(writes, f"R01.15: trial write not found in {q}")
+        after = g.reachable([m for w in writes for k, m in w.succ if k not in ("e", "reraise")], edge_ok=lambda a, k, b: k not in ("e", "reraise"))
+        rej = [n for n in g.stmt_nodes() if n.kind == "stmt" and isinstance(n.ast, ast.Return) and isinstance(n.ast.value, ast.Constant) and n.ast.value.value is False]
+        # the journal handler returns None; its rejection is the early `return` on the RUNNING->RUNNING branch
+        if not rej:
+            rej = [n for n in g.stmt_nodes() if n.kind == "stmt" and isinstance(n.ast, ast.Return) and n.ast.value is None]
+        bad = [n for n in rej if n in after]
+        ctx.check(not bad, "R01.15", f.short, "rejected-request-writes-nothing",
+                  message=f"{f.name}: a rejecting return (line {bad[0].ast.lineno if bad else 0}) is reachable after the trial was written "
+                          f"(`{norm(writes[0].ast)[:50] if writes[0].kind == 'stmt' else ''}` ...): the caller is told nothing changed while this backend has stored the values",
+                  how="no write node reaches `return False`", witness=g.witness(bad, src=writes[0]) if bad else None)
+
+
 # ------------------------------------------------------------------------------------------------
 KEY_COLUMNS = {"trial_id", "study_id", "key", "step", "objective", "param_name"}
 UPSERT_EXEMPT = {"record_heartbeat": "a new heartbeat row takes the column's server-side default timestamp; only the update writes it explicitly"}
@@ -923,3 +952,4 @@ def run(ctx):
     r01_12(ctx, p)
     r01_13(ctx, p)
     r01_14(ctx, p)
+    r01_15(ctx, p)
